@@ -43,7 +43,7 @@ func firstNew(vs hx.Vs) *hx.Violation {
 }
 
 func size(c Case) int {
-	n := len(c.Setup) + 3*len(c.Threads) + 2*len(c.Schedule)
+	n := len(c.Setup) + 3*len(c.Threads) + 2*len(c.Schedule) + 2*len(c.Life)
 	for _, t := range c.Threads {
 		n += 2 * len(t.Ops)
 	}
@@ -56,7 +56,7 @@ func size(c Case) int {
 }
 
 func cloneCase(c Case) Case {
-	x := Case{Backend: c.Backend, Setup: append([]kshist.Op(nil), c.Setup...), Schedule: append([]Seg(nil), c.Schedule...)}
+	x := Case{Backend: c.Backend, Setup: append([]kshist.Op(nil), c.Setup...), Life: append([]LifeEv(nil), c.Life...), Schedule: append([]Seg(nil), c.Schedule...)}
 	for _, t := range c.Threads {
 		x.Threads = append(x.Threads, Script{Role: t.Role, Ops: append([]kshist.Op(nil), t.Ops...)})
 	}
@@ -102,6 +102,19 @@ func minimise(c Case, sig string) Case {
 				segs = append(segs, s)
 			}
 			x.Schedule = segs
+			var life []LifeEv
+			for _, ev := range x.Life {
+				if ev.Ev == evOpen {
+					switch {
+					case ev.T == i:
+						continue
+					case ev.T > i:
+						ev.T--
+					}
+				}
+				life = append(life, ev)
+			}
+			x.Life = life
 			try(x)
 		}
 		for i := range c.Threads {
@@ -114,6 +127,11 @@ func minimise(c Case, sig string) Case {
 		for i := len(c.Setup) - 1; i >= 0; i-- {
 			x := cloneCase(c)
 			x.Setup = append(x.Setup[:i], x.Setup[i+1:]...)
+			try(x)
+		}
+		for i := len(c.Life) - 1; i >= 0; i-- {
+			x := cloneCase(c)
+			x.Life = append(x.Life[:i], x.Life[i+1:]...)
 			try(x)
 		}
 		for i := len(c.Schedule) - 1; i >= 0; i-- {
